@@ -46,6 +46,12 @@ fn main() {
     }
     let verif_dir = std::env::var("VERIF_DIR").unwrap_or_else(|_| "/verif".to_string());
     rt::install_panic_hook();
+    // quick-tier default work factors (measured so that each quick check takes roughly 20-30 s on 16 idle cores);
+    // VERIF_SCALE overrides. Replays must use the scale of the run that produced them, so it is fixed per tier.
+    let scale = if std::env::var("VERIF_SCALE").is_ok() || tier != Tier::Quick { scale } else {
+        match id.as_str() { "C01" => 2.0, "C02" => 3.0, "C03" => 6.0, "C04" => 3.0, "C05" => 2.0, "C06" => 5.0, "C07" => 4.0, "C08" => 3.0, "C09" => 2.0, "C10" => 4.0,
+            "C11" => 4.0, "C12" => 2.0, "C13" => 3.0, "C14" => 3.0, "C15" => 5.0, "C16" => 3.0, "C18" => 8.0, "C19" => 2.0, "C20" => 4.0, _ => 1.0 }
+    };
     let cfg = Cfg { tier, seed, jobs, only_case, scale };
     let started = Instant::now();
     if id == "SELFTEST" {
